@@ -54,9 +54,12 @@ def is_failure_for(cf):
     return pred
 
 
+LAZY = [False]       # slow-provider mode (queued messages encoded late), toggled by run_family
+
+
 def run_primary(ae, contexts, messages, sub_plans=(), case=None, ts=svc.IMPLICIT):
     try:
-        acc, fac, exc = fd.run_acceptor(ae, [svc.primary_plan(contexts, messages, ts)] + list(sub_plans))
+        acc, fac, exc = fd.run_acceptor(ae, [svc.primary_plan(contexts, messages, ts)] + list(sub_plans), lazy=LAZY[0])
     finally:
         ae.server_close()
     return acc, fac, exc
@@ -337,7 +340,17 @@ def run_family(ctx, job):
     # boundary message ids exhaustively with otherwise default values
     def wrapped(value):
         ctx.case((fam, value), nontrivial(fam, value), labels=['svc=' + fam], sample={'family': fam, 'case': value})
-        fn(value)
+        for lazy in (False, True):
+            LAZY[0] = lazy
+            try:
+                fn(value)
+            except Violation as v:
+                if lazy and isinstance(v.case, dict):
+                    v.case['lazy'] = True
+                    v.key += ':slow-provider'
+                raise
+            finally:
+                LAZY[0] = False
     hyp_search(ctx, strat, wrapped, job['n'], name='C17-' + fam, max_buckets=6)
     if fam in ('echo',):
         for mid in MSG_IDS:
@@ -371,6 +384,7 @@ def run(ctx):
 
 def replay(case):
     warnings.simplefilter('ignore')
+    LAZY[0] = bool(case.get('lazy'))
     s = case['svc']
     oc = case['outcome']
     if isinstance(oc, list):
